@@ -137,6 +137,11 @@ class Gen:
             body = self.block(r.choice([1, 2, 3]), 0, in_for=False, infn=True, top=True)
             if self.mode == "B":
                 body.append(("r", self.sp("return"), self.arg() or ("L", "yes")))
+            elif self.mode == "A" and r.random() < 0.15:
+                # the function ends in a self-call on its very last line (tail position), stopped by the shared script `cr`
+                body.append(("i", self.sp("if"), ("!", ("N", "cr")), [("r", self.sp("return"), self.arg())], [], self.sp("close_if")))
+                body.append(("k", r.choice([None, None, "r1"]), self.fnames[k],
+                             [a for a in (self.arg() for _ in range(r.choice([0, 1, 2]))) if a is not None]))
             elif r.random() < 0.5:
                 body.append(("r", self.sp("return"), self.arg()))
             defs.append((self.sp("function"), self.scoped[k], self.fnames[k], body, self.sp("close_fn")))
@@ -318,6 +323,24 @@ def directed(T):
            ("r", "return", ("V", "1"))]
     for s in ("", "T", "TT", "TTT", "TFT"):
         cases.append(("directed", [("fn", False, "f0", rec, "end_fn")], [("k", "r0", "f0", [("L", "top")]), ("c", ("E", "m", ["r0", "r1", "1"]))], ["cr", s]))
+    # tail self-calls (seed C05-w6-m1: a self-call on the last line before the function's end reused the running call frame, so the
+    # innermost `return v` landed in the OUTERMOST call's output variable): the recursive call is the last statement, with and
+    # without an output variable, scoped or not; the outer call has an output variable / none / sits in condition position
+    for scoped in (False, True):
+        for inner_out in (None, "r1"):
+            for ending in (("L", "bottom"), ("V", "1"), None):
+                tailrec = [("c", ("E", "enter", ["1"])),
+                           ("i", "if", ("!", ("N", "cr")), [("r", "return", ending)], [], "end"),
+                           ("k", inner_out, "f0", [("L", "deeper")])]
+                for s in ("", "T", "TT", "TTT"):
+                    cases.append(("directed", [("fn", scoped, "f0", tailrec, "end")],
+                                  [("c", ("S", "r0", "old")), ("c", ("S", "r1", "old1")), ("k", "r0", "f0", [("L", "top")]),
+                                   ("c", ("E", "m", ["r0", "r1", "1"])), ("k", None, "f0", [("L", "again")]),
+                                   ("c", ("E", "m2", ["r0", "r1"]))], ["cr", s + s]))
+                    cases.append(("directed", [("fn", scoped, "f0", tailrec, "end")],
+                                  [("c", ("S", "r0", "old")),
+                                   ("i", "if", ("F", "f0", [("L", "top")]), [("c", ("E", "T", ["r0"]))], [("el", "else", [("c", ("E", "E", ["r0"]))])], "end"),
+                                   ("c", ("E", "fin", ["r0", "r1"]))], ["cr", s]))
     # calls in condition position: if / elseif / while / not, scoped or not, value / bare return / fall-off,
     # inside loops and inside other functions (also evaluated in condition position themselves)
     ft = ("fn", False, "ft", [("c", ("E", "t", ["1"])), ("i", "if", ("N", "cw"), [("r", "return", ("V", "1"))], [], "end"),
@@ -365,6 +388,7 @@ def run(ck):
     ck.source_tie("flowwhile")
     ck.source_tie("flowfn")
     ck.source_tie("flowif")
+    ck.source_tie("smallnat")
     ck.hygiene()
     ck.ocaml_build()
     ck.harness_build(["c05"])
